@@ -302,6 +302,12 @@ class IncrementalExecutor(Executor[DeliveryGroupMap]):
             stream_item_queues.closed = True
             for queue in stream_item_queues:
                 self.settle_abort_result(queue.abort())
+            futures = self.pending_incremental_futures
+            if futures:
+                pending = list(futures)
+                for future in pending:
+                    future.cancel()
+                self.settle_in_background(pending)
             return super().build_response(data)
 
         errors = self.collected_errors.errors
